@@ -21,7 +21,7 @@ ASSUMPTIONS = ['no manual intervention (forced state changes are ignored)',
                'job vacation messages are not generated']
 MIN = {'c09.transitions': 1500, 'c09.output_checks': 2000,
        'c09.running>waiting': 10}
-NCASES = {'quick': 300, 'thorough': 4000}
+NCASES = {'quick': 1000, 'thorough': 12000}
 
 
 def ncases(tier):
